@@ -26,7 +26,7 @@ REQUIRED = {"post:get_sample": 400, "post:get_interval": 300, "cases:zero_retain
 
 def jobs(tier, seed):
     n_jobs = 16 if tier == "quick" else 32
-    return [{"name": f"read-{j}", "seed": seed, "j": j, "n_chains": 8 if tier == "quick" else 60} for j in range(n_jobs)]
+    return [{"name": f"read-{j}", "seed": seed, "j": j, "n_chains": 24 if tier == "quick" else 120} for j in range(n_jobs)]
 
 
 def check_readouts(rec, ch, kind, rng, ctx, n_combos):
